@@ -15,6 +15,7 @@ struct Relay {
 	int maxans = 0; std::string big = "drop";        // drop|servfail|tc
 	std::string edns = "keep";                       // keep|strip|drop
 	bool shuffle = false, reencode = false, idrewrite = false, ttl_rewrite = false;
+	bool text_a = false;                              // answer-side transformations also hit the text of TXT answers
 	bool ref_reencode = false;                        // answers re-encoded by the reference encoder (C09: reference encoder -> real client)
 	bool bypass = false;
 	uint64_t nq = 0, na = 0;
